@@ -3,22 +3,27 @@
 #  (1) with the patch the existing suite passes, (2) the demo fails with the patch,
 #  (3) the demo passes without it.  Prints CONFIRMED / NOT-CONFIRMED with reasons.
 d="$1"; cd "$d" || exit 2
-git checkout -q -- . ; rm -f tests/demo.rs
+git checkout -q -- src ; rm -f tests/demo.rs
 kind=$(python3 -c "import json;print(json.load(open('out/meta.json')).get('demo_kind','integration'))" 2>/dev/null || echo integration)
 git apply out/patch.diff || { echo "NOT-CONFIRMED: patch does not apply"; exit 1; }
 t1=$(cargo test --offline 2>&1 | grep -E "^test result" | awk '{p+=$4; f+=$6} END {print p" passed "f" failed"}')
+run_sdp_demo() {  # prints a cargo-test-like result line for the sdp_demo binary
+  cp out/demo_main.rs sdp_demo/src/main.rs
+  if (cd sdp_demo && timeout 1200 cargo run --offline >/dev/null 2>&1); then echo "test result: ok. (sdp_demo exit 0)"; else echo "test result: FAILED. (sdp_demo exit non-zero)"; fi
+}
 place_demo() {
   case "$kind" in
+    sdp_demo) demo_cmd="run_sdp_demo";;
     unit:*) f=${kind#unit:}; cat out/demo_unit.rs >> "$f"; demo_cmd="cargo test --offline --lib verif_demo";;
     *) cp out/demo.rs tests/demo.rs; demo_cmd="cargo test --offline --test demo";;
   esac
 }
 place_demo
 r1=$($demo_cmd 2>&1 | grep -E "^test result" | tail -1)
-git checkout -q -- . ; rm -f tests/demo.rs
+git checkout -q -- src ; rm -f tests/demo.rs
 place_demo
 r2=$($demo_cmd 2>&1 | grep -E "^test result" | tail -1)
-git checkout -q -- . ; rm -f tests/demo.rs
+git checkout -q -- src ; rm -f tests/demo.rs
 echo "existing suite with patch: $t1"
 echo "demo with patch:    $r1"
 echo "demo without patch: $r2"
